@@ -41,7 +41,7 @@ def check(ctx):
     proto = collections.Counter()
     for procs in (1, 4, 16):
         tr = os.path.join(ctx.work, "hist-p%d.ndjson" % procs)
-        windows = 12 if thorough else 3
+        windows = 12 if thorough else 4   # (the fourth window of a run has concurrent checkpoints)
         pt = os.path.join(ctx.work, "proto-p%d.ndjson" % procs)
         vlib.vdrive(ctx, ["rm", "hist", tr, windows, 8, 20, procs], timeout=1200, ok_codes=(0, 3),
                     env={"VERIF_SEED": str(ctx.seed * 17 + procs), "VERIF_RMTRACE": pt})
